@@ -178,3 +178,15 @@ PROPS["C01"] = dict(
         R("C01.secure_and_udp_stacks", "swarms", "TestC01Net", 40, 1500, shrink=10, quick=dict(checks=40, shards=4, timeout=600)),
     ],
 )
+
+PROPS["C09"] = dict(
+    level="exploration",
+    technique="property-based testing (rapid): boundary payload lengths x generated stacks with recording decorators under every layer; error-class, no-size-rejection-beneath and ledger/sentinel oracles",
+    level_text="Generated stacks with small inner MTUs and header-bearing channel ids are probed at lengths around MTU() and around every fragment-size / fragment-count boundary, through Tell and Ask; recording decorators make a size rejection by any lower layer visible even when an upper layer swallows the error. Holds on everything generated.",
+    level_note="Recorders beneath a QUIC layer are excluded from the no-size-rejection rule (QUIC probes the path MTU with oversize packets by design). Loss of an accepted payload is allowed (queue overflow, reassembly garbage collection); anything delivered must be the complete payload.",
+    design_ref="4/C09",
+    assumptions=["QUIC path-MTU probes rejected by the inner transport are not size rejections of application payloads", "loss of accepted payloads is allowed; deliveries must be complete"],
+    subs=[
+        R("C09.mtu_honest", "swarms", "TestC09MTU", 400, 16000, shrink=10, quick=dict(checks=400, shards=4, timeout=600)),
+    ],
+)
